@@ -257,6 +257,59 @@ def _opt_is_none_or(ctx, o, clos):
     return b_or(b_not(c), v)
 
 
+@model(r'^std::option::Option::<.*>::filter::<.*>$')
+def _opt_filter(ctx, o, clos):
+    c = opt_is_some(o)
+    if c is False:
+        return NONE
+    v = opt_val(o)
+    p = ctx.ex.alloc(ctx.st, v)
+    keep = call_under(ctx, c, clos, [p])
+    if keep is None:
+        return NONE
+    return mk_option(b_and(c, keep), v)
+
+
+@model(r'^std::ops::Range::<(\w+)>::contains::<.*>$')
+def _range_contains(ctx, rp, ip):
+    t = re.match(r'^std::ops::Range::<(\w+)>', ctx.callee).group(1)
+    r = ctx.deref(rp)
+    x = ctx.deref(ip)
+    ex = ctx.ex
+    return b_and(ex.binop('Le', r[0], x, t), ex.binop('Lt', x, r[1], t))
+
+
+@model(r'^std::ops::RangeInclusive::<(\w+)>::contains::<.*>$')
+def _range_incl_contains(ctx, rp, ip):
+    t = re.match(r'^std::ops::RangeInclusive::<(\w+)>', ctx.callee).group(1)
+    r = ctx.deref(rp)
+    x = ctx.deref(ip)
+    ex = ctx.ex
+    lo, hi = (r[1], r[2]) if (isinstance(r, tuple) and r and r[0] == 'incl') else (r[0], r[1])
+    return b_and(ex.binop('Le', lo, x, t), ex.binop('Le', x, hi, t))
+
+
+@model(r'^core::str::<impl str>::bytes$')
+def _str_bytes(ctx, s):
+    s = as_str(ctx, s)
+    if hasattr(s, 'bytes_model'):
+        return s.bytes_model(ctx)
+    return IterV(tuple((True, CI(b, 8)) for b in s.s.encode()))
+
+
+@model(r'^<std::str::Bytes(<.*>)? as std::iter::Iterator>::next$')
+def _bytes_next(ctx, p):
+    return _iter_next(ctx, p)
+
+
+@model(r'^core::str::<impl str>::as_bytes$')
+def _str_as_bytes(ctx, s):
+    s = as_str(ctx, s)
+    if hasattr(s, 'as_bytes_model'):
+        return s.as_bytes_model(ctx)
+    return ctx.ex.alloc(ctx.st, Seq.of([CI(b, 8) for b in s.s.encode()]))
+
+
 @model(r'^std::option::Option::<.*>::map::<.*>$')
 def _opt_map(ctx, o, clos):
     c = opt_is_some(o)
@@ -771,7 +824,24 @@ def _vec_pop(ctx, p):
 
 @model(r'^std::vec::Vec::<.*>::(len)$')
 def _vec_len(ctx, p):
-    return X.seq_len(ctx.deref(p))
+    s = ctx.deref(p)
+    if hasattr(s, 'len_model'):
+        return s.len_model(ctx)
+    return X.seq_len(s)
+
+
+@model(r'^std::vec::Vec::<.*>::remove$')
+def _vec_remove(ctx, p, idx):
+    s = ctx.deref(p)
+    if hasattr(s, 'remove_model'):
+        return s.remove_model(ctx, p, idx)
+    if not (isinstance(s, Seq) and s.dense() and isinstance(idx, CI)):
+        raise Unsupported('Vec::remove on a sparse sequence / symbolic index')
+    if idx.v >= len(s.ents):
+        ctx.panic_if(True, 'removal index out of bounds')
+        return X.DIVERGE
+    ctx.write(p, Seq(s.ents[:idx.v] + s.ents[idx.v + 1:]))
+    return s.ents[idx.v][1]
 
 
 @model(r'^std::vec::Vec::<.*>::is_empty$')
@@ -1127,22 +1197,39 @@ def _iter_next(ctx, p):
     return some(v)
 
 
+@model(r'^<.* as std::iter::Iterator>::skip$')
+def _iter_skip(ctx, it, n):
+    ents = iter_realise(ctx, it)
+    if isinstance(n, CI):
+        if all(g is True for g, _ in ents):
+            return IterV(ents[n.v:])
+    if not all(g is True for g, _ in ents):
+        raise Unsupported('skip over a sparse iterator')
+    ex = ctx.ex
+    return IterV(tuple((ex.binop('Ge', CI(k, 64), n, 'usize'), v) for k, (g, v) in enumerate(ents)))
+
+
 @model(r'^<.* as std::iter::Iterator>::position::<.*>$')
 def _iter_position(ctx, p, clos):
     it = ctx.deref(p)
     ents = iter_realise(ctx, it)
-    res = NONE
-    found = False
-    # first index whose predicate holds
+    ex = ctx.ex
+    # first active entry whose predicate holds; its index counts the active entries before it
     acc = []
+    cnt = CI(0, 64)
     for k, (g, v) in enumerate(ents):
-        if g is not True:
-            raise Unsupported('position over sparse iterator')
-        r = call_under(ctx, b_not(found) if found is not False else True, clos, [v])
-        acc.append((k, r))
+        r = call_under(ctx, g, clos, [v])
+        acc.append((b_and(g, r) if r is not None else False, cnt))
+        if g is True:
+            cnt = ex.binop('Add', cnt, CI(1, 64), 'usize') if not isinstance(cnt, CI) else CI(cnt.v + 1, 64)
+        elif g is not False:
+            one = ite(g, CI(1, 64), CI(0, 64))
+            cnt = ex.binop('Add', cnt, one, 'usize') if not (isinstance(cnt, CI) and cnt.v == 0) else one
     out = NONE
-    for k, r in reversed(acc):
-        out = ite(r, some(CI(k, 64)), out) if not isinstance(r, bool) else (some(CI(k, 64)) if r else out)
+    for c, idx in reversed(acc):
+        if c is False:
+            continue
+        out = some(idx) if c is True else ite(c, some(idx), out)
     return out
 
 
